@@ -13,7 +13,7 @@ from .. import sp
 ID = "C08"
 META = {
     "technique": "runtime monitoring: icontract class invariant on Library + lock-step executable list model + atomicity monitor on ValueError, over bounded-exhaustive and random call histories",
-    "level_text": "All histories of add/remove/replace calls (47 call shapes over a 14-block universe (incl. equal-but-distinct copies of one entry and of one comment, and instances of user-defined Entry/String subclasses) with colliding keys) to depth k and random histories of depth 30 are executed on the real Library; after every call the icontract invariant checks the view equations and the partition, the list model checks identity/order/position/wrappers, and every call that raised ValueError must leave the observable state (incl. the order of `strings`) unchanged.",
+    "level_text": "All histories of add/remove/replace calls (47 call shapes over a 14-block universe (incl. equal-but-distinct copies of one entry and of one comment, and instances of user-defined Entry/String subclasses) with colliding keys) to depth k and random histories of depth 30 are executed on the real Library; after every call the icontract invariant checks the view equations and the partition, the list model checks identity/order/position/wrappers, and every call that raised ValueError must leave the observable state (incl. the order of `strings`) unchanged. The random histories also run in libraries pre-filled with 15 ... 300 filler blocks (both sides of 16, 64, 128, 256).",
     "level_note": "the model is identity-based (the block passed in is the one removed / replaced, at its position); remove([..]) removes all or nothing; when a call names a block that is not held itself while an equal copy is, either outcome (ValueError, or acting on the copy) is accepted; known finding K1",
 }
 RULE = ("case = history (list of calls) over the universe {e(a), e'(a), e(b), field-less e(c), e'(c), s(a), s'(a), s(b), preamble, comment}; all histories to depth k plus "
